@@ -69,6 +69,8 @@ type State struct {
 	obs     []obsEntry       // observed values (translator validation)
 	tasks   []*task          // fork-join idiom: goroutines spawned and not yet run
 	chans   map[int]*chanObj
+	wgs     map[string]int // sync.WaitGroup counters
+	inTask  int            // > 0 while a spawned task is running
 }
 
 type obsEntry struct {
@@ -97,6 +99,8 @@ func (s *State) clone() *State {
 		}
 	}
 	n.tasks = append([]*task(nil), s.tasks...)
+	n.wgs = s.wgs
+	n.inTask = s.inTask
 	if s.chans != nil {
 		n.chans = make(map[int]*chanObj, len(s.chans))
 		for k, v := range s.chans {
@@ -638,6 +642,9 @@ func (e *Engine) step(st *State) (forks []*State) {
 	case *ssa.BinOp:
 		fr.regs[in] = e.binop(st, in.Op, e.val(fr, in.X), e.val(fr, in.Y), in.X.Type())
 	case *ssa.UnOp:
+		if in.Op == token.ARROW {
+			return e.recvOp(st, fr, in)
+		}
 		fr.regs[in] = e.unop(st, in, e.val(fr, in.X))
 	case *ssa.Store:
 		e.store(st, e.val(fr, in.Addr).(PtrVal), e.val(fr, in.Val))
@@ -799,8 +806,18 @@ func (e *Engine) step(st *State) (forks []*State) {
 		}
 		fv := e.val(fr, in.Call.Value)
 		return e.doCall(st, fr, in, &in.Call, fv, args, true)
-	case *ssa.Go, *ssa.Send, *ssa.Select, *ssa.MakeChan:
-		unsupported("concurrency instruction %T", instr)
+	case *ssa.Go:
+		e.goStmt(st, fr, in)
+	case *ssa.Send:
+		return e.sendStmt(st, fr, in)
+	case *ssa.MakeChan:
+		n, ok := e.concreteInt(st, e.val(fr, in.Size), "chan size")
+		if !ok {
+			unsupported("make(chan) with symbolic size")
+		}
+		fr.regs[in] = e.makeChan(st, n)
+	case *ssa.Select:
+		unsupported("select statement")
 	default:
 		unsupported("instruction %T (%s)", instr, instr)
 	}
@@ -967,6 +984,9 @@ func (e *Engine) valuesEq(a, b Value) *Term {
 		}
 	case MapVal:
 		y := b.(MapVal)
+		return ConstBool(x.Obj == y.Obj)
+	case ChanVal:
+		y := b.(ChanVal)
 		return ConstBool(x.Obj == y.Obj)
 	case FuncVal:
 		y := b.(FuncVal)
